@@ -559,8 +559,13 @@ def check_nox(ctx, impl, case, outs):
                 warnings.simplefilter('ignore')
                 r = impl.BFFM2_EINOx(ff, impl.tmv(ei), impl.tmv(cal), T, P)
             comps = [r.NOxEI, r.NOEI, r.NO2EI, r.HONOEI, r.noProp, r.no2Prop, r.honoProp]
-            rep.clause('nox_finite_nonneg', all(_finite_nonneg(x) for x in comps),
-                       'non-finite or negative component with four equal calibration flows')
+            fin = all(_finite_nonneg(x) for x in comps)
+            only_inf = all(bool(np.all(np.nan_to_num(np.asarray(x, dtype=float), nan=-1.0, posinf=1.0) >= 0.0)) for x in comps)
+            # (np.polyfit's minimum-norm line through four points with one abscissa x0 has slope ~ mean(y) / (2 x0): for flows near
+            #  1 kg/s, x0 = log10(flow) is tiny, the slope is of the order of hundreds and the extrapolation overflows like in the
+            #  near-equal case — the same open finding; NaN or negative values are still violations)
+            rep.clause('nox_finite_nonneg', fin, f'four equal calibration flows {cal[0]!r}: NOxEI {_fl(np.asarray(r.NOxEI, dtype=float))[:6]}',
+                       finding=F_OVF if (not fin and only_inf) else None)
         except Exception as e:  # noqa: BLE001
             rep.clause('nox_finite_nonneg', False, f'raised {type(e).__name__} with four equal calibration flows')
         return rep
